@@ -12,10 +12,13 @@ package lru
 //@   ensures r0 == keyOf(f, v)
 
 // create function: any result; ghost call counter
+// atClock: the (ghost) clock value at the last call - "no clock reading was taken after the value was created"
+// is then the statement atClock == clock
 //@ ghostfield CreatePoolElemF.calls int
+//@ ghostfield CreatePoolElemF.atClock time.Time
 //@ assumed func (f CreatePoolElemF[K, V]) call(k K) (V, error)
-//@   modifies f.calls
-//@   ensures f.calls == old(f.calls) + 1
+//@   modifies f.calls, f.atClock
+//@   ensures f.calls == old(f.calls) + 1 && f.atClock == clock
 
 // delete callback: ghost log of the (key, value) pairs it was called with
 //@ ghostfield OnDeleteElemF.dlen int
@@ -56,12 +59,12 @@ package lru
 //@ func (p *ECache[PK, K, V]) GetOrCreate(pk PK) (V, error)
 //@   props C08 C11
 //@   requires p.ok()
-//@   modifies p.items.head, p.items.last, p.items.vals[*], p.inflight[*], each(n, *iterable.rlItem[K, pair[PK, V]], n.owner == p.items || n.owner == nil, n.refCnt, n.key, n.val, n.state, n.next, n.prev, n.owner, n.ord), p.onDeleteF.dlen, p.onDeleteF.dk, p.onDeleteF.dv, p.createNewF.calls
+//@   modifies p.items.head, p.items.last, p.items.vals[*], p.inflight[*], each(n, *iterable.rlItem[K, pair[PK, V]], n.owner == p.items || n.owner == nil, n.refCnt, n.key, n.val, n.state, n.next, n.prev, n.owner, n.ord), p.onDeleteF.dlen, p.onDeleteF.dk, p.onDeleteF.dv, p.createNewF.calls, p.createNewF.atClock
 //@   ensures p.ok()
 // hit: no create call, no delete callback, the entry becomes the most recent one
 //@   ensures old(has(p.items.vals, keyOf(p.mapToInnerKeyF, pk))) ==> r1 == nil && r0 == old(p.items.aval(keyOf(p.mapToInnerKeyF, pk)).v) && p.createNewF.calls == old(p.createNewF.calls) && (p.onDeleteF != nil ==> p.logKept()) && p.restKept(keyOf(p.mapToInnerKeyF, pk)) && p.newest(keyOf(p.mapToInnerKeyF, pk)) && p.items.aval(keyOf(p.mapToInnerKeyF, pk)) == old(p.items.aval(keyOf(p.mapToInnerKeyF, pk))) && len(p.items.vals) == old(len(p.items.vals))
 // miss: exactly one create call
-//@   ensures !old(has(p.items.vals, keyOf(p.mapToInnerKeyF, pk))) ==> p.createNewF.calls == old(p.createNewF.calls) + 1
+//@   ensures !old(has(p.items.vals, keyOf(p.mapToInnerKeyF, pk))) ==> p.createNewF.calls == old(p.createNewF.calls) + 1 && p.createNewF.atClock == clock
 // failed creation changes nothing
 //@   ensures !old(has(p.items.vals, keyOf(p.mapToInnerKeyF, pk))) && r1 != nil ==> p.allKept() && (p.onDeleteF != nil ==> p.logKept())
 // successful creation: inserted as most recent ...
@@ -135,7 +138,7 @@ package lru
 //@ func (p *ExpirableCache[K, V]) GetOrCreate(k K) (V, error)
 //@   props C08
 //@   requires p != nil && p.Cache != nil && p.Cache.ECache != nil && p.Cache.ECache.ok() && p.Cache.ECache.onDeleteF != nil
-//@   modifies clock, p.Cache.ECache.items.head, p.Cache.ECache.items.last, p.Cache.ECache.items.vals[*], p.Cache.ECache.inflight[*], each(n, *iterable.rlItem[K, pair[K, V]], n.owner == p.Cache.ECache.items || n.owner == nil, n.refCnt, n.key, n.val, n.state, n.next, n.prev, n.owner, n.ord), p.Cache.ECache.onDeleteF.dlen, p.Cache.ECache.onDeleteF.dk, p.Cache.ECache.onDeleteF.dv, p.Cache.ECache.createNewF.calls
+//@   modifies clock, p.Cache.ECache.items.head, p.Cache.ECache.items.last, p.Cache.ECache.items.vals[*], p.Cache.ECache.inflight[*], each(n, *iterable.rlItem[K, pair[K, V]], n.owner == p.Cache.ECache.items || n.owner == nil, n.refCnt, n.key, n.val, n.state, n.next, n.prev, n.owner, n.ord), p.Cache.ECache.onDeleteF.dlen, p.Cache.ECache.onDeleteF.dk, p.Cache.ECache.onDeleteF.dv, p.Cache.ECache.createNewF.calls, p.Cache.ECache.createNewF.atClock
 //@   ensures p.Cache.ECache.ok()
 // fresh resident item: returned as is, nothing created, nothing deleted
 //@   ensures old(has(p.Cache.ECache.items.vals, keyOf(p.Cache.ECache.mapToInnerKeyF, k))) && !before(expAt(old(p.Cache.ECache.items.aval(keyOf(p.Cache.ECache.mapToInnerKeyF, k)).v)), clock) ==> r1 == nil && r0 == old(p.Cache.ECache.items.aval(keyOf(p.Cache.ECache.mapToInnerKeyF, k)).v) && p.Cache.ECache.createNewF.calls == old(p.Cache.ECache.createNewF.calls) && p.Cache.ECache.logKept()
@@ -143,6 +146,8 @@ package lru
 //@   ensures old(has(p.Cache.ECache.items.vals, keyOf(p.Cache.ECache.mapToInnerKeyF, k))) && before(expAt(old(p.Cache.ECache.items.aval(keyOf(p.Cache.ECache.mapToInnerKeyF, k)).v)), clock) ==> p.Cache.ECache.createNewF.calls == old(p.Cache.ECache.createNewF.calls) + 1 && p.Cache.ECache.logged(old(p.Cache.ECache.items.aval(keyOf(p.Cache.ECache.mapToInnerKeyF, k)).pk), old(p.Cache.ECache.items.aval(keyOf(p.Cache.ECache.mapToInnerKeyF, k)).v))
 // a miss calls the create function at least once
 //@   ensures !old(has(p.Cache.ECache.items.vals, keyOf(p.Cache.ECache.mapToInnerKeyF, k))) ==> p.Cache.ECache.createNewF.calls >= old(p.Cache.ECache.createNewF.calls) + 1
+// ... and the freshly created value is judged against a clock reading taken BEFORE it was created (no reading after the creation)
+//@   ensures [C08] !old(has(p.Cache.ECache.items.vals, keyOf(p.Cache.ECache.mapToInnerKeyF, k))) ==> p.Cache.ECache.createNewF.atClock == clock
 
 // ---- C09: concurrent use of ECache ----
 // Everything behind p.lock (the item map with its whole linked structure, the in-flight table) is guarded; the fields
